@@ -41,6 +41,8 @@ ASSUMPTIONS = ['float64 data on the enumerated grids (uniform and quadratically 
                'repeated fits on one object: interior abscissae moved by +0.3/-0.2 of the local gap, same length and end points; each fit is judged against the dense solution of its own data']
 
 COND_MAX = 1e4
+SENTINELS = {'1e20': 1e20, '-1e20': -1e20, '1e25': 1e25, '1e30': 1e30, '-1e30': -1e30,
+             'max': float(np.finfo(np.float64).max), '-max': -float(np.finfo(np.float64).max), '-9999': -9999.0}
 
 
 # ------------------------------------------------------------------ menus
@@ -85,6 +87,12 @@ def rhs_vector(spec, x, w):
     elif kind == 'perturbed':
         y = np.array([((7 * i + 3) % 11) - 5.0 for i in range(n)])
         y[w <= 0] += 1000.0
+    elif kind == 'sentinel':
+        # huge finite placeholder values at zero-weight points: ['sentinel', name, 'all' | j]  (j-th zero-weight point only)
+        y = np.array([((7 * i + 3) % 11) - 5.0 for i in range(n)])
+        zw = np.nonzero(w <= 0)[0]
+        tgt = zw if spec[2] == 'all' else zw[[spec[2]]]
+        y[tgt] = SENTINELS[spec[1]]
     else:
         raise ValueError(kind)
     return y
@@ -160,7 +168,7 @@ def check_fit(case, pre=None):
     verdicts = []
     for A in ((Ar, Al) if k == 1 else (Ar,)):
         ref = _bsp.wlsq(A, y, w)[0]
-        scale = max(1.0, float(np.max(np.abs(y))), float(np.max(np.abs(ref))))
+        scale = max(1.0, float(np.max(np.abs(y[w > 0]))), float(np.max(np.abs(ref))))      # zero-weight y must not widen the tolerance
         tol = (1e-11 + 1e-13 * cond * cond) * scale
         err = float(np.max(np.abs(c - ref))) if (c.shape == ref.shape and np.all(np.isfinite(c))) else np.inf
         v = []
@@ -179,7 +187,10 @@ def check_fit(case, pre=None):
     if not (np.array_equal(x, keep[0]) and np.array_equal(y, keep[1]) and np.array_equal(w, keep[2])):
         bad.append(('fit:input-modified', ''))
     nontrivial = bool(np.any(np.abs(refs[0]) > 1e-9))
-    return bad, ('ok:fit:' + case['rhs'][0] + (':zw' if len(case['zero']) else ':full')) if not bad else 'bad:' + bad[0][0], nontrivial, c
+    label = case['rhs'][0] + (':' + str(case['rhs'][1]) if case['rhs'][0] == 'sentinel' else '')
+    if bad and case['rhs'][0] == 'sentinel' and bad[0][0] == 'fit:coeff!=lstsq':
+        bad[0] = ('fit:coeff!=lstsq:huge-y-at-zero-weight', bad[0][1])
+    return bad, ('ok:fit:' + label + (':zw' if len(case['zero']) else ':full')) if not bad else 'bad:' + bad[0][0], nontrivial, c
 
 
 def linear_verdict(case, cond, cg, cp, csum):
@@ -502,8 +513,9 @@ def tasks(tier):
                                 t.append(dict(d, maxzero=n, z0=z0, wpats=[0]))
                     elif n == 8 or T:
                         t.append(dict(d, maxzero=n, wpats=[0, 1]))
-                    else:
-                        t.append(dict(d, maxzero=2, runs=True, wpats=[0, 1] if KNOTS.index(kn) % 2 == 0 else [0]))
+                    elif (KNOTS.index(kn) + k) % 2 == (fam == 'clu'):
+                        # quick, n = 10: each (order, knot option) on one of the two grid families (thorough runs both, all subsets)
+                        t.append(dict(d, maxzero=2, runs=True, wpats=[0, 1]))
     for fam in ('uni', 'clu'):
         for k in range(1, 6):
             for kn in (KNOTS if T else KNOTS[1::2]):
@@ -590,7 +602,16 @@ def run_task(task):
                     for sig, msg in bad:
                         acc.violation(sig, case, msg)
                     continue
-                rhs = [['unit', i] for i in range(n) if w[i] > 0] + [['mono', d] for d in range(k)] + [['generic'], ['perturbed']]
+                rhs = [['mono', d] for d in range(k)] + [['generic'], ['perturbed']]
+                if wpat == 0 or len(z) <= 1:
+                    rhs = [['unit', i] for i in range(n) if w[i] > 0] + rhs        # linearity basis (the weight pattern does not enter the clause)
+                if len(z):
+                    Tt = task.get('tier') == 'thorough'
+                    rhs += [['sentinel', v, 'all'] for v in (SENTINELS if Tt else ('1e30', '-1e20', 'max'))]
+                    if len(z) > 1:
+                        rhs += [['sentinel', v, j] for j in range(len(z)) for v in (('1e25', '-1e30', '-max') if Tt else ('1e25',))]
+                    elif not Tt:
+                        rhs += [['sentinel', '1e25', 0]]
                 got = {}
                 yg = rhs_vector(['generic'], x, w)
                 csum = 0.0
@@ -600,6 +621,8 @@ def run_task(task):
                     acc.case(_bsp.ckey(case), nt, out, sample=case)
                     for sig, msg in bad:
                         acc.violation(sig, case, msg)
+                    if r[0] == 'sentinel':
+                        continue
                     if c is None:
                         csum = None
                     elif r[0] == 'unit' and csum is not None:
@@ -611,7 +634,7 @@ def run_task(task):
                 acc.case(_bsp.ckey(case), True, out, sample=None)
                 for sig, msg in bad:
                     acc.violation(sig, case, msg)
-                if csum is not None and 'generic' in got and 'perturbed' in got:
+                if csum is not None and rhs[0][0] == 'unit' and 'generic' in got and 'perturbed' in got:
                     case = dict(base, part='L')
                     bad, out = linear_verdict(case, pre[1], got['generic'], got['perturbed'], csum)
                     acc.case(_bsp.ckey(case), True, out, sample=None)
